@@ -1,6 +1,7 @@
 package props
 
 import (
+	"sort"
 	"bytes"
 	"encoding/json"
 	"errors"
@@ -43,6 +44,7 @@ func c15types() []c15type {
 		num("uint8", []string{"0", "255"}), num("uint16", []string{"65535"}), num("uint32", []string{"4294967295", "1"}),
 		num("uint64", []string{"18446744073709551615", "0", "9007199254740993"}),
 		{"decimal64", "decimal64 { fraction-digits 3; }", func(r *core.Rng) string { return core.Pick(r, []string{"0", "1.5", "-2.25", "1000000.125", "0.001"}) }, func(s string, _ bool) (string, string) { return "n", s }},
+		{"decimal64-9", "decimal64 { fraction-digits 9; }", func(r *core.Rng) string { return core.Pick(r, []string{"3.14159265", "0.000000125", "-2.000000001", "1.5", "123456.789012345"}) }, func(s string, _ bool) (string, string) { return "n", s }},
 		{"boolean", "boolean", func(r *core.Rng) string { return core.Pick(r, []string{"true", "false"}) }, func(s string, _ bool) (string, string) { return "t", s }},
 		{"empty", "empty", func(r *core.Rng) string { return "<not empty>" }, func(s string, _ bool) (string, string) { return "t", "[null]" }},
 		{"enum", "enumeration { enum one { value 1; } enum two; enum big { value 70; } }", func(r *core.Rng) string { return core.Pick(r, []string{"one", "two", "big"}) },
@@ -78,6 +80,10 @@ func c15genKids(r *core.Rng, sc *c15schema, ts []c15type, depth int, n int, mod 
 	for i := 0; i < n; i++ {
 		c15seq++
 		k := r.Intn(10)
+		if c15choices && depth < 3 && r.Chance(12) {
+			out = append(out, c15genChoice(r, sc, ts, depth, mod))
+			continue
+		}
 		switch {
 		case k < 6 || depth >= 3:
 			t := core.Pick(r, ts)
@@ -112,6 +118,38 @@ func c15genKids(r *core.Rng, sc *c15schema, ts []c15type, depth int, n int, mod 
 	return out
 }
 
+var c15choices = true
+
+// a choice: explicit cases (some opening with a nested choice that is followed by further nodes) and shorthand cases
+func c15genChoice(r *core.Rng, sc *c15schema, ts []c15type, depth int, mod string) *gen.SNode {
+	c15seq++
+	ch := &gen.SNode{Name: fmt.Sprintf("x%d", c15seq), Kind: "choice"}
+	sc.mod[ch.Name] = mod
+	// no schema defaults inside cases: which case's defaults apply is C09's matter
+	dflt := c15withDefaults
+	c15withDefaults = false
+	defer func() { c15withDefaults = dflt }()
+	for ci, n := 0, 2+r.Intn(2); ci < n; ci++ {
+		if r.Chance(25) {
+			kid := c15genKids(r, sc, ts, 3, 1, mod) // one leaf
+			ch.Cases = append(ch.Cases, &gen.SCase{Name: kid[0].Name, Kids: kid, Shorthand: true})
+			continue
+		}
+		c15seq++
+		cs := &gen.SCase{Name: fmt.Sprintf("y%04d", c15seq)}
+		if depth < 2 && r.Chance(35) {
+			cs.Kids = append(cs.Kids, c15genChoice(r, sc, ts, depth+1, mod))
+		}
+		was := c15choices
+		c15choices = false
+		cs.Kids = append(cs.Kids, c15genKids(r, sc, ts, depth+1, 1+r.Intn(2), mod)...)
+		c15choices = was
+		ch.Cases = append(ch.Cases, cs)
+	}
+	sort.Slice(ch.Cases, func(i, j int) bool { return ch.Cases[i].Name < ch.Cases[j].Name })
+	return ch
+}
+
 // yang with leaf-lists
 func c15yang(sc *c15schema, kids []*gen.SNode, indent string) string {
 	var b strings.Builder
@@ -131,6 +169,16 @@ func c15yang(sc *c15schema, kids []*gen.SNode, indent string) string {
 			fmt.Fprintf(&b, "%scontainer %s {\n%s%s}\n", indent, s.Name, c15yang(sc, s.Kids, indent+"  "), indent)
 		case "list":
 			fmt.Fprintf(&b, "%slist %s { key \"%s\";\n%s%s}\n", indent, s.Name, s.Kids[0].Name, c15yang(sc, s.Kids, indent+"  "), indent)
+		case "choice":
+			fmt.Fprintf(&b, "%schoice %s {\n", indent, s.Name)
+			for _, cs := range s.Cases {
+				if cs.Shorthand {
+					b.WriteString(c15yang(sc, cs.Kids, indent+"  "))
+				} else {
+					fmt.Fprintf(&b, "%s  case %s {\n%s%s  }\n", indent, cs.Name, c15yang(sc, cs.Kids, indent+"    "), indent)
+				}
+			}
+			fmt.Fprintf(&b, "%s}\n", indent)
 		}
 	}
 	return b.String()
@@ -160,6 +208,11 @@ func c15data(r *core.Rng, sc *c15schema, kids []*gen.SNode, density int) []*gen.
 				out[i].Present = true
 				out[i].Kids = c15data(r, sc, s.Kids, density)
 			}
+		case "choice":
+			if r.Chance(70) {
+				ci := r.Intn(len(s.Cases))
+				out[i].Cases[ci] = c15data(r, sc, s.Cases[ci].Kids, density)
+			}
 		case "list":
 			if r.Chance(density) {
 				n := r.Intn(4)
@@ -183,6 +236,7 @@ func c15data(r *core.Rng, sc *c15schema, kids []*gen.SNode, density int) []*gen.
 
 // expected value as Go data (for comparison with encoding/json's decode) and as model member tokens
 func c15expect(sc *c15schema, kids []*gen.SNode, body []*gen.DNode, enumAsIds, qualify bool, parentMod string, top bool) (map[string]interface{}, []string) {
+	kids, body = gen.Flatten(kids, body)
 	m := map[string]interface{}{}
 	var toks []string
 	n := 0
@@ -217,8 +271,20 @@ func c15expect(sc *c15schema, kids []*gen.SNode, body []*gen.DNode, enumAsIds, q
 				var arr []interface{}
 				parts := strings.Split(*d.Leaf, "\x1e")
 				tk := []string{"a", fmt.Sprint(len(parts))}
+				// a union leaf-list is held as one typed list: the first member type that takes every element
+				allStr := false
+				if t.name == "union" {
+					for _, p := range parts {
+						if k, _ := t.jv(p, enumAsIds); k == "s" {
+							allStr = true
+						}
+					}
+				}
 				for _, p := range parts {
 					v, t2 := one(p)
+					if allStr {
+						v, t2 = p, []string{"s", core.Hex(p)}
+					}
 					arr = append(arr, v)
 					tk = append(tk, t2...)
 				}
